@@ -30,7 +30,18 @@ def replay(group, trace):
         died = rc not in (0, 1, 2)
         why = ' | '.join(lines[-3:])[:500]
         return (rc == 1 or died), (f'the process died (exit {rc}: terminate after an uncaught exception): ' if died else '') + why
+    # which throw site does the counterexample use?  (numbered in the skeleton's meta file)
+    import json
+    site = R.num(((trace or {}).get('assignments') or {}).get('__skel_exc'), 0)
+    scenario = 'chunk'
+    try:
+        bdir = os.environ.get('VERIF_BUILD') or os.path.join(root, 'build')
+        sites = {s['site']: s for s in json.load(open(os.path.join(bdir, group.unit + '.meta.json'))).get('throw_sites', [])}
+        what = sites.get(site, {}).get('what', '')
+        scenario = {'Shamir::combine': 'chunk', 'stoul': 'endpoint', 'stoull': 'endpoint', 'stoi': 'endpoint', 'decode_manifest': 'manifest'}.get(what, 'chunk')
+    except Exception:
+        pass
     exe = R.build_full('C35.cpp', with_daemon=False, exclude=['src/core/Node.cpp'])
-    rc, out = R.run(exe, [], timeout=120)
+    rc, out = R.run(exe, [scenario], timeout=120)
     last = [l for l in out.strip().splitlines() if l.strip()][-1:] or ['']
     return rc == 1, last[0][:400]
